@@ -516,9 +516,22 @@ func StructFieldsAsOptionsAction(explicitFields ...string) RewriteAction {
 		oldAssignments := option.Assignments
 		assignmentPathPrefix := oldAssignments[0].Path
 
+		defaults := make(map[string]any)
+		if option.Default != nil && len(option.Default.ArgsValues) == 1 {
+			if defs, ok := option.Default.ArgsValues[0].(map[string]any); ok {
+				defaults = defs
+			}
+		}
+
 		for _, field := range structType.Fields {
 			if explicitFields != nil && !tools.ItemInList(field.Name, explicitFields) {
 				continue
+			}
+
+			// a default defined for the whole struct takes precedence over
+			// the one the struct defines for its own field.
+			if def, ok := defaults[field.Name]; ok {
+				field.Type.Default = def
 			}
 
 			newOpt := ast.Option{
